@@ -236,13 +236,13 @@ func runC05(r *Run) {
 		switch i {
 		case 0:
 			idx := permLeaf.at(r.Index)
-			r.Sub["c05.leaf"] = idx
+			r.Visit("c05.leaf", idx)
 			g.forceInv = 1 + idx/leafKinds
 			f = g.leaf(d, idx%leafKinds, true)
 			g.forceInv = 0
 		case 1:
 			idx := permD2.at(r.Index)
-			r.Sub["c05.depth2"] = idx
+			r.Visit("c05.depth2", idx)
 			comp, a, b := idx/(leafKinds*leafKinds), (idx/leafKinds)%leafKinds, idx%leafKinds
 			g.forceInv = 1
 			la := g.leaf(d, a, true)
